@@ -8,7 +8,7 @@ MsgBytes(f, n) == CASE f = 0 -> [i \in 1..n |-> (i * 17 + 3) % 256] [] f = 1 -> 
                     [] f = 8 -> <<101, 110, 99, 114, 121, 112, 116, 105, 111, 110, 32, 115, 116, 97, 110, 100, 97, 114, 100>>  \* "encryption standard"
                     [] f = 9 -> <<109, 101, 115, 115, 97, 103, 101, 32, 100, 105, 103, 101, 115, 116>>     \* "message digest" (the standard's example)
 \* an absent (nil / empty) user id means the default id "1234567812345678" (the API's documented convention)
-IdBytes(spec) == CASE spec.kind \in {"default", "absent"} -> DefaultID
+IdBytes(spec) == CASE spec.kind \in {"default", "absent", "empty"} -> DefaultID     \* ("empty": a zero-length, non-nil slice)
                    [] spec.kind = "len" -> [i \in 1..spec.n |-> 65 + (i % 26)]
 Hex(bs) == FoldLeft(LAMBDA acc, b : acc \o HexDigit(b \div 16) \o HexDigit(b % 16), "", bs)
 
